@@ -161,9 +161,12 @@ macro_rules! new_sample_type {
             #[inline]
             fn mul(self, other: Self) -> Self {
                 if cfg!(debug_assertions) {
-                    $T::new(self.0 * other.0).expect("arithmetic operation overflowed")
+                    self.0
+                        .checked_mul(other.0)
+                        .and_then($T::new)
+                        .expect("arithmetic operation overflowed")
                 } else {
-                    $T::from(self.0 * other.0)
+                    $T::from(self.0.wrapping_mul(other.0))
                 }
             }
         }
